@@ -179,7 +179,8 @@ def to_triples(d, properties=True, lnk=True):
             if lnk and node.lnk:
                 triples.append((_id, ':lnk', '"{}"'.format(str(node.lnk))))
             if node.carg is not None:
-                triples.append((_id, ':carg', '"{}"'.format(node.carg)))
+                triples.append(
+                    (_id, ':carg', '"{}"'.format(_escape(node.carg))))
             if node.type:
                 triples.append((_id, ':' + CVARSORT, node.type))
             if properties:
@@ -229,7 +230,7 @@ def from_triples(triples):
             nd[src]['lnk'] = Lnk.charspan(int(cfrom), int(cto))
         elif rel == 'carg':
             if (tgt[0], tgt[-1]) == ('"', '"'):
-                tgt = tgt[1:-1]
+                tgt = _unescape(tgt[1:-1])
             nd[src]['carg'] = tgt
         elif rel == CVARSORT:
             nd[src]['type'] = tgt
@@ -257,3 +258,22 @@ def from_triples(triples):
         surface=surface,
         identifier=identifier
     )
+
+
+# Character Escaping (as in SimpleMRS)
+
+def _escape(s: str) -> str:
+    return s.replace('\\', '\\\\').replace('"', '\\"')
+
+
+def _unescape(s: str) -> str:
+    cs = []
+    i = 0
+    while i < len(s):
+        if s[i] == '\\' and (i + 1) < len(s):
+            cs.append(s[i+1])
+            i += 2
+        else:
+            cs.append(s[i])
+            i += 1
+    return "".join(cs)
